@@ -12,6 +12,24 @@ from props.c11 import panic_key
 import framework as F
 
 
+def cache_ok(ex, cache, pinfo):
+    """every persisted proposal is back in the proposal cache under its (number, payload hash), and nothing else is"""
+    total = 0; conds = []
+    found = [[] for _ in pinfo]
+    for k, cell in cache.entries:
+        kn = fld(k, '0')
+        inner = cell.v
+        for hk, pcell in getattr(inner, 'entries', []):
+            total += 1
+            j = hk.tag[1] if isinstance(hk, Opaque) and isinstance(hk.tag, tuple) and hk.tag[0] == 'payload_hash' else None
+            if j is None or j >= len(pinfo): conds.append(z3.BoolVal(False)); continue
+            found[j].append(to_z3_bool(num_cmp('Eq', kn, pinfo[j][0])))
+    for j in range(len(pinfo)):
+        conds.append(z3.Or(*found[j]) if found[j] else z3.BoolVal(False))
+    conds.append(z3.BoolVal(total == len(pinfo)))
+    return z3.And(*conds)
+
+
 def run(rep, db, tier):
     ex = Exec(db, loop_bound=20); ex.hash_order_insertion = True
     holder = [None]
@@ -26,6 +44,18 @@ def run(rep, db, tier):
         return EnvFuture('get_state', respond)
     ex.model_path('zksync_consensus_engine::manager::EngineManager::get_state', get_state)
 
+    holder_p = [[]]
+    def payload_hash(e, n, a):
+        # distinct payloads have distinct hashes: the hash is identified with the position of the payload among the persisted proposals
+        pl = M.deref_all(a[0])
+        inner = pl.fields[0] if isinstance(pl, Agg) and pl.fields else pl
+        for j, (num, b) in enumerate(holder_p[0]):
+            if b is inner or (getattr(inner, 'ident', None) is not None and getattr(inner, 'ident', None) == b.ident): return Opaque(('payload_hash', j))
+        return Opaque(z3.Int('payload_hash'))
+    ex.model(r'zksync_consensus_roles::validator::messages::block::Payload::hash', payload_hash)
+    ex.user_models.insert(0, ex.user_models.pop()); ex._um_cache = {}
+    ex.model(r'std::hash::RandomState::new|std::collections::hash_map::RandomState::new|<std::hash::RandomState as std::default::Default>::default|<std::collections::hash_map::RandomState as std::default::Default>::default', lambda e, n, a: Opaque('RandomState'))
+
     def body(ex):
         w = R.World(ex, db, 2); holder[0] = w
         w.state()          # builds config etc.; the in-memory state itself is not used
@@ -36,15 +66,20 @@ def run(rep, db, tier):
         if ex.choose(2, 'b_hv') == 0: hvv, _ = w.replica_commit('b_hv'); hv = some(hvv)
         if ex.choose(2, 'b_cqc') == 0: c, _ = w.commit_qc('b_cqc', own=True); cqc = some(c)
         if ex.choose(2, 'b_tqc') == 0: t, _ = w.timeout_qc('b_tqc', own=True, with_votes=False); tqc = some(t)
-        props = []
-        if ex.choose(2, 'b_prop') == 0:
-            props.append(mk.adt(R.V + r'block::Proposal', number=mk.tuple_struct(R.V + r'block::BlockNumber', w.num('b_prop_num')), payload=mk.tuple_struct(R.V + r'block::Payload', symgen.BytesV(ex.fresh('b_payload_len')))))
+        # 0, 1 or 2 persisted proposals; two of them may be for the SAME block number (a replica can vote for two payloads of one
+        # height in different views) — payloads have distinct hashes
+        props = []; pinfo = []
+        for j in range(ex.choose(3, 'b_props')):
+            num = w.num(f'b_prop_num{j}'); pl = symgen.BytesV(ex.fresh(f'b_payload_len{j}'))
+            props.append(mk.adt(R.V + r'block::Proposal', number=mk.tuple_struct(R.V + r'block::BlockNumber', num), payload=mk.tuple_struct(R.V + r'block::Payload', pl)))
+            pinfo.append((num, pl))
+        holder_p[0] = pinfo
         backup = mk.adt(R.V + r'v2::state::ChonkyV2State', epoch=mk.tuple_struct(R.V + r'consensus::EpochNumber', bepoch), view_number=mk.tuple_struct(R.V + r'consensus::ViewNumber', st['view']),
                         phase=mk.adt(R.V + r'v2::consensus::Phase', R.PHASES[st['phase']]), high_vote=hv, high_commit_qc=cqc, high_timeout_qc=tqc, proposals=VecV(props))
         backup_box[0] = mk.adt(R.V + r'state::ReplicaState', 'V2', _0=backup)
         cfg = fld(w.sm_cell.v, 'config')
         r = coro.run_async(ex, key, [Ref(Cell(Opaque('ctx'))), cfg, Opaque('outbound'), Opaque('inbound'), M.WatchV(none())])
-        return w, r, bepoch, st, (hv, cqc, tqc), props
+        return w, r, bepoch, st, (hv, cqc, tqc), (props, pinfo)
     res = explore(ex, body, budget_s=600)
     rep.absorb_stats(ex.stats)
     viol = []
@@ -53,19 +88,21 @@ def run(rep, db, tier):
             st_, m = solve(pc, None)
             if st_ == 'sat': viol.append((panic_key(val), f'StateMachine::start panics: {val[0]} at {val[1]}'))
             continue
-        w, r, bepoch, st, (hv, cqc, tqc), props = val
+        w, r, bepoch, st, (hv, cqc, tqc), (props, pinfo) = val
         if r == 'pending' or r.variant == 1: continue
         rep.nontrivial += 1
         sm = r.fields[0]
         same_epoch = bepoch.e == w.e0.e
         restored = z3.And(to_z3_bool(num_cmp('Eq', fld(fld(sm, 'view_number'), '0'), st['view'])), z3.BoolVal(fld(sm, 'phase').variant == st['phase']),
                           to_z3_bool(values_equal(ex, fld(sm, 'high_vote'), hv)), to_z3_bool(values_equal(ex, fld(sm, 'high_commit_qc'), cqc)), to_z3_bool(values_equal(ex, fld(sm, 'high_timeout_qc'), tqc)),
-                          z3.BoolVal(len(fld(sm, 'block_proposal_cache').entries) == len(props)))
+                          cache_ok(ex, fld(sm, 'block_proposal_cache'), pinfo))
         fresh = z3.And(to_z3_bool(num_cmp('Eq', fld(fld(sm, 'view_number'), '0'), Num(0, 64))), z3.BoolVal(fld(sm, 'phase').variant == 0), z3.BoolVal(fld(sm, 'high_vote').variant == 0),
                        z3.BoolVal(fld(sm, 'high_commit_qc').variant == 0), z3.BoolVal(fld(sm, 'high_timeout_qc').variant == 0))
         caches_empty = all(len(fld(sm, c).entries) == 0 for c in ('commit_views_cache', 'commit_qcs_cache', 'timeout_views_cache', 'timeout_qcs_cache'))
         good = z3.And(z3.If(same_epoch, restored, fresh), z3.BoolVal(caches_empty))
         st_, m = solve(pc, z3.Not(good))
+        import os
+        if st_ == 'sat' and os.environ.get('MIRSYM_DEBUG'): print('DEBUG start', fld(sm, 'block_proposal_cache'), holder_p[0], [repr(c.v) for k, c in fld(sm, 'block_proposal_cache').entries])
         if st_ == 'sat': viol.append(('start:state-not-restored', 'StateMachine::start does not restore exactly the persisted view / phase / high vote / certificates of a same-epoch backup (or does not start fresh for another epoch)'))
         elif st_ != 'unsat': raise Unmodelled('solver unknown')
     seen = set()
